@@ -118,7 +118,7 @@ uint64_t transcript_hash (const std::vector<Rec> &t)
 
 // ------------------------------------------------------------------------------------------
 
-#define GUARD(t, r) os.jmp_armed = true ; if (setjmp (os.jb) != 0) { budget_fail (t, r) ; return ; }
+#define GUARD(t, r) simos_poison_stack (os.mem_fill) ; os.jmp_armed = true ; if (setjmp (os.jb) != 0) { budget_fail (t, r) ; return ; }
 
 namespace {
 
@@ -1851,6 +1851,9 @@ void Exec::run ()
 	const J &cfg = plan.at ("cfg") ;
 	os.clock_off = cfg.geti ("clock", 0) ;
 	os.fd_zero = cfg.geti ("fd0", 0) != 0 ;
+	// every execution starts library calls on known memory: a printable letter chosen by the plan (stale bytes that leak into strings,
+	// headers or samples then show up in the value oracles); differential oracles pass two different values explicitly
+	os.mem_fill = opts.mem_fill >= 0 ? opts.mem_fill : (int) ('A' + key % 26) ;
 	os.passthrough = opts.passthrough ; os.pt_root = opts.pt_root ; os.pt_synced.clear () ;
 	if (os.passthrough) os.pt_wipe () ;
 	os.trace_io_enabled = opts.io_trace ;
